@@ -56,6 +56,18 @@ register('C04', 'Hypothesis pairs / matrices / points with exact-zero, sign and 
          'nextafter(t_start), t_end. Three narrow known findings (closed-form noise, unresolved spike).',
          'magnitude reference only needed within 1e10; known findings keyed by call site and magnitude window', 'DESIGN.md 3/C04, 4')
 
+register('C11', 'Hypothesis pairs x all 4x4 split combinations, metamorphic additivity of bilform',
+         'Sum over DummyElement pieces / real children equals the unsplit entry within 1e-7 sqrt(D D) for every class of pair and both switches.',
+         'relation of the code with itself; scale from the independent low-order reference', 'DESIGN.md 3/C11')
+register('C12', 'Hypothesis pairs and their images under exchange / time shift / curve motions, each realised as leaves of a really bisected mesh',
+         'Bitwise equality under exchange of space intervals and dyadic time shifts; 1e-7 sqrt(D D) under quarter turns, rotations by whole roots and reflection, '
+         'incl. images across the seam or on another side.',
+         'relation of the code with itself; only curves that possess the motion', 'DESIGN.md 3/C12')
+register('C13', 'Hypothesis-generated and deterministic graded meshes; smallest eigenvalue of the scaled symmetric part of the assembled matrix and of 4x4 child blocks',
+         'lambda_min(D^-1/2 sym(A) D^-1/2) > 0.01 on 64 (quick) / 240 (thorough) generated meshes up to 120 / 400 elements plus a deterministic family graded towards '
+         'seam, corner and final time, both switches; child blocks and the three hierarchical scalings positive.',
+         'numpy eigvalsh; serial assembly path', 'DESIGN.md 3/C13')
+
 NOT_YET = {}
 def main():
     props = [json.loads(l)['id'] for l in open(os.path.join(V, 'properties.jsonl'))]
